@@ -734,11 +734,29 @@ def _make_records(rng, k, with_fluxes, sizes=None):
     return recs
 
 
+def _clone_records(recs):
+    """records that pickle to EXACTLY the same number of bytes as the first one (same shapes, names of the same length,
+    other numbers)"""
+    out = [recs[0]]
+    for i in range(1, len(recs)):
+        r = pickle.loads(pickle.dumps(recs[0], 2))
+        r.meta = recs[0].meta
+        # (numpy arrays pickle to a length that depends on their bytes under protocol 2, Python floats and strings of
+        #  equal length do not: the records differ in the source's name and position only)
+        r.source.name = recs[0].source.name[:-1] + str(i % 10)
+        r.source.x = float(recs[0].source.x) + 1.5 * i
+        r.source.y = float(recs[0].source.y) - 0.25 * i
+        out.append(r)
+    return out
+
+
 def c19_file(rec, case):
     from sedfitter.fit_info import FitInfoFile
     c = unjson_floats(case)
     rng = np.random.default_rng(c['pseed'])
     recs = _make_records(rng, c['k'], c['with_fluxes'], c.get('sizes'))
+    if c.get('clones'):
+        recs = _clone_records(recs)
     ok = True
     with pkg.scratch() as d:
         fn = os.path.join(d, 'out.fitinfo')
@@ -811,7 +829,7 @@ def run_c19(tier, seed):
             rec.case(key=(k, wf), nontrivial=True, sample=case if k == 2 else None)
     # records of EQUAL size (a reader that re-uses a buffer between records shows its stale bytes only then)
     for wf in (False, True):
-        case = dict(seed=seed, tag='c19', pseed=int(rng.integers(1, 10 ** 6)), k=3, with_fluxes=wf, sizes=[3, 3, 3])
+        case = dict(seed=seed, tag='c19', pseed=int(rng.integers(1, 10 ** 6)), k=3, with_fluxes=wf, sizes=[3, 3, 3], clones=True)
         try:
             c19_file(rec, case)
         except Exception as e:      # noqa
